@@ -214,15 +214,22 @@ end XConfig
 /-! ## protocol level: optimiser result → decision -/
 namespace SelProt
 
-/-- UsefulnessCriterionIntegerSelection.problem l.998-1000, the decision-space bounds of the integer
-    mate-selection problem:
+/-- UsefulnessCriterionIntegerSelection.problem, the decision-space bounds of the integer
+    mate-selection problem (as repaired by 3d8c7c9b):
       lower = numpy.repeat(0, len(xmap));
-      upper = numpy.repeat(self.ncross * self.nparent * self.nmating, len(xmap));
+      upper = numpy.repeat(self.ncross * self.nparent * int(numpy.max(self.nmating)), len(xmap));
       numpy.stack([lower, upper])
-    `self.nmating` is the `(ncross,)` array its setter stores, and `numpy.repeat` of an array repeats
-    every element, so `upper` has `ncross · len(xmap)` entries; `numpy.stack` raises `ValueError` on
-    unequal shapes. -/
+    `self.nmating` is the `(ncross,)` array its setter stores; `numpy.max` of an empty array raises. -/
 def ucIntegerBounds (nc np : Nat) (nmating : List Nat) (nx : Nat) : Except String (List Nat × List Nat) :=
+  match nmating with
+  | [] => .error "value"
+  | m :: ms => .ok (List.replicate nx 0, List.replicate nx (nc * np * ms.foldl max m))
+
+/-- the same lines before the repair (D21):
+      upper = numpy.repeat(self.ncross * self.nparent * self.nmating, len(xmap))
+    `numpy.repeat` of the `(ncross,)` array repeats every element, so `upper` has `ncross · len(xmap)`
+    entries and `numpy.stack` raises `ValueError` on unequal shapes. -/
+def ucIntegerBoundsPrerepair (nc np : Nat) (nmating : List Nat) (nx : Nat) : Except String (List Nat × List Nat) :=
   let lower := List.replicate nx 0
   let upper := Np.repeatN nx (nmating.map (fun m => nc * np * m))
   if lower.length = upper.length then .ok (lower, upper) else .error "value"
